@@ -98,12 +98,15 @@ impl BocData {
         BocData { cal: cal.clone(), format: format.clone(), published, malformed }
     }
 
-    /// Unique per date (encodes the day index), >= 5 decimals, never a trailing zero:
-    /// a returned rate names the one date it came from and a truncated copy is a different number.
+    /// Unique per date (encodes the day index in four digits), >= 5 decimals: a returned rate names
+    /// the one date it came from.
     fn value_for(seed: u64, d: Date) -> String {
         let di = day_index(d);
         let mut x = seed ^ (di as u64).wrapping_mul(0x9E37_79B9);
-        let digit = 1 + splitmix(&mut x) % 9;
+        // The last digit makes a truncated copy a different number. In a third of the calendars it may
+        // also be 0 (a published "1.39450"): the same number at another scale, which Decimal keeps and
+        // full-precision output prints - a cut copy of such a value is numerically equal, hence harmless.
+        let digit = if (seed / 4) % 3 == 0 { splitmix(&mut x) % 10 } else { 1 + splitmix(&mut x) % 9 };
         // A quarter of the calendars are "around par": noon values (CAD per USD) BELOW 1, as in
         // 2007-08 and 2010-13, and daily values (USD per CAD) ABOVE 1 - which series an observation
         // belongs to, not its size, decides whether it is inverted.
